@@ -123,6 +123,23 @@ structure SchedClock where
   currentMinute : Nat
   stageBT : Bool                  -- `_stage == "before_trading"`
 
+/-- the stock baseline session `{(571, 690), (780, 900)}` -/
+def stockBaseline : List (Nat × Nat) := [(571, 690), (780, 900)]
+
+/-- `_universe_change`: the ranges after the universe changed — the trading hours of every universe member whose account
+type is configured (`hours`, one list of (start, end) minutes per such member), plus the stock baseline whenever a stock
+account is configured -/
+def universeRanges (stockAccount : Bool) (hours : List (List (Nat × Nat))) : List (Nat × Nat) :=
+  hours.flatten ++ (if stockAccount then stockBaseline else [])
+
+/-- `_universe_change`: `_start_minute` only ever grows: the largest (first-session start − 1) seen so far -/
+def universeStartMinute (start0 : Nat) (hours : List (List (Nat × Nat))) : Nat :=
+  hours.foldl (fun acc h => match h with
+    | [] => acc
+    | r :: _ => max (r.1 - 1) acc) start0
+
+def inRanges (ranges : List (Nat × Nat)) (n : Nat) : Bool := ranges.any (fun r => r.1 ≤ n && n ≤ r.2)
+
 /-- `_should_trigger(n)` -/
 def shouldTrigger (cfg : SchedCfg) (c : SchedClock) (n : Nat) : Bool :=
   if !(cfg.ranges.any (fun r => r.1 ≤ n && n ≤ r.2)) then false
